@@ -38,7 +38,7 @@ def describe(fp):
     return loop + repr(body)
 
 
-def check_inventory(ctx, prop, rule, only=None):
+def check_inventory(ctx, prop, rule, only=None, kinds=None):
     prog = ctx.prog
     ref = load_ref()
     sel = {f['key']: (f, props) for f, props in verifiers.selected(prog)}
@@ -60,6 +60,8 @@ def check_inventory(ctx, prop, rule, only=None):
         for it in ent['items']:
             fp = ast.literal_eval(it['fp'])
             k = kind_of(fp)
+            if kinds is not None and not kinds(k, fp):
+                continue
             nec = k not in INFO_KINDS and it.get('tag', 'nec') == 'nec'
             missing = []
             for lab in it['variants']:
